@@ -350,6 +350,19 @@ def scope(F, prop_record, depth=2, want_named=False):
     text = " ".join(m["name"] for m in prop_record["anchors"]["mechanism"])
     words = set(re.findall(r"[A-Za-z_][A-Za-z0-9_]*", text))
     in_files = {k for k, fn in F.fns.items() if fn["span"]["file"] in files}
+    # `Segmenter::{bitmap,output}_segment` and `add_*_segment` name families of methods: expand them over the methods of the anchor files
+    globs = []
+    for pre, alts, post in re.findall(r"([A-Za-z0-9_]*)\{([a-z0-9_, ]+)\}([A-Za-z0-9_]*)", text):
+        for a in alts.split(","):
+            words.add(pre + a.strip() + post)
+    for g in re.findall(r"[A-Za-z0-9_]*\*[A-Za-z0-9_*]*", text):
+        if len(g.replace("*", "")) >= 4 and re.match(r"^[a-z_*]", g):
+            globs.append(re.compile("^" + re.escape(g).replace("\\*", "[a-z0-9_]+") + "$"))
+    if globs:
+        for k in in_files:
+            m = re.sub(r"^.*::", "", re.sub(r"<[^<>]*>", "", re.sub(r"(::\{closure#\d+\})+$", "", k)))
+            if any(g.match(m) for g in globs):
+                words.add(m)
     named = set()
     by_method = collections.defaultdict(list)
     for k in in_files:
